@@ -4,7 +4,7 @@ single-point mutations to a *copy* of the repository, keep those the pinned
 suite does not kill, and run the quick checks anchored in the mutated file
 against the copy (PYTHONPATH=<copy>/src makes `import reuse` resolve to it).
 
-usage: mutate.py <scratch-dir> <out.json> [--stride N] [--offset K] [--files a.py,b.py] [--max M]
+usage: mutate.py <scratch-dir> <out.json> [--stride N] [--offset K] [--files a.py,b.py] [--max M] [--minutes T]
 <scratch-dir> is created as a git worktree of /repo HEAD (it must not exist) and removed at the end.  Before the first mutant every check
 that will be used is run against the unmutated copy and must be silent - otherwise a defect of the copy itself (e.g. a stale copy that
 lacks a later fix) would make every mutant count as detected.  The commit of the copy is recorded in the output.
@@ -119,6 +119,7 @@ def _campaign(repo, out, args, head):
     offset = int(args[args.index("--offset") + 1]) if "--offset" in args else 0
     only = args[args.index("--files") + 1].split(",") if "--files" in args else list(FILE_CHECKS)
     maxn = int(args[args.index("--max") + 1]) if "--max" in args else 10 ** 9
+    deadline = time.time() + 60 * float(args[args.index("--minutes") + 1]) if "--minutes" in args else None
     results = json.load(open(out)) if os.path.exists(out) else []
     done = {(r["file"], r["index"]) for r in results}
     env = dict(os.environ, PYTHONPATH=f"{repo}/src")
@@ -140,7 +141,7 @@ def _campaign(repo, out, args, head):
         for k, (index, ln, desc) in enumerate(pts):
             if (k + offset) % stride != 0 or (rel, index) in done:
                 continue
-            if count >= maxn:
+            if count >= maxn or (deadline and time.time() > deadline):
                 break
             count += 1
             try:
